@@ -12,7 +12,7 @@ NS = 6
 RULE = ("case = one operation history (1..~600 ops) on six handle slots of Array/Stack/Queue of int, String or a counted "
         "element type with a heap payload: new/copy/assign/drop handles, append, insert at every position, self-referential "
         "insert/append (a << a[j], a.insert(k, a[j]), a.insert(k, b[j]) with b sharing the block, a.append(a), a.copy(a)), "
-        "remove(i,n), removeOne, removeLast, resize up/down, reserve, clear, sort (both overloads), sortBy, pointer variants Array(p,n)/copy(p,n)/append(p,n) incl. p inside the same array, remove with counts up to INT_MAX, operator-comma, range-for / foreach / Enumerator / slice_, slice, clone, dup, concat, "
+        "remove(i,n), removeOne, removeLast, resize up/down, reserve, clear, sort (both overloads), sortBy, slice(i) and slice(i,0), histories on Array<Node> with arguments stored inside an element of the same array (a = a[j].kids, append, copy), pointer variants Array(p,n)/copy(p,n)/append(p,n) incl. p inside the same array, remove with counts up to INT_MAX, operator-comma, range-for / foreach / Enumerator / slice_, slice, clone, dup, concat, "
         "reversed, filter, removeIf, copy, element writes, push/pop/popget/top, put/get; after every op the length, elements, "
         "rc() and cap() of all six handles (and the live-object counter) are compared; non-trivial = distinct history with a "
         "mid-array insert/remove and at least one capacity growth")
@@ -47,7 +47,10 @@ LEVEL_TEXT = ("Proved in Lean 4 about the executable model the driver runs (AslM
               "without the guard the statement is false (a=[]; b=a; a<<0<<1<<2<<3). The model is tied to the current source on every "
               "run by the correspondence check (real Array/Stack/Queue of int, String and a counted heap-payload type under ASan/LSan; "
               "all six handles' elements, rc() and cap() compared after every operation) and an independent python reference.")
-LEVEL_NOTE = ("Known finding shared-growth: operations that would increase the capacity of a block whose rc > 1 are excluded (left out "
+LEVEL_NOTE = ("Recursive element type (struct Node { int v; Array<Node> kids; }: a = a[j].kids, a.append(a[j].kids), a.copy(a[j].kids), "
+              "repaired by 46697f8 / 8a65fa2): NOT in the proved model - these histories (prefix na) are compared by K only, against a "
+              "reference-level Lean model with explicit reference counts (AslModel/ArrayNested.lean, no theorems), and operations that may "
+              "grow a block are left out whenever the block is shared at all. Known finding shared-growth: operations that would increase the capacity of a block whose rc > 1 are excluded (left out "
               "by harness and model; the theorems are about exactly those runs). Not covered by model or harness: converting "
               "constructor / operator=(Array<K>), operator=(Var), initializer-list constructor/assignment/append, map / map_ / with, "
               "operator< of arrays, join, deprecated destroy()/ptr conversions, shuffle. sortBy: in bounds, terminating, permutation proved; sortedness only where the key order is strict total on the "
